@@ -54,7 +54,7 @@ func (Engine) Describe() simcore.Description {
 		Rule: "one run = 2-5 accounts each funded with 10^33 units of 4-8 denominations, an amount regime (tiny / mid / huge up to 10^30 per reserve, plus strongly unbalanced pools), an initial taker fee; steps are MsgCreateBalancerPool (2-8 assets, weights 1..2^20-1, spread factor from a set incl. 0), MsgCreateStableswapPool (2-5 assets, scaling factors), MsgJoinPool, MsgJoinSwapExternAmountIn, MsgJoinSwapShareAmountOut, MsgExitPool, MsgExitSwapShareAmountIn, MsgExitSwapExternAmountOut, poolmanager and gamm MsgSwapExactAmountIn/Out over 1-3 hops, MsgSplitRouteSwapExactAmountIn/Out, bank MsgSend to a pool address (tracked donations), taker-fee parameter changes (default, per-pair override, reduced-fee whitelist), new blocks, day-epoch crossings, node restarts, closed-cycle probes on discarded branches; odd run indices add out-of-gas (gas limit = fraction of the message's own use) and forced roll-back on messages.",
 		Assumptions: []string{
 			"mint is switched off in genesis (MintingRewardsDistributionStartEpoch far in the future) so that 'total supply of every non-share token is unchanged' can be checked for uosmo as well; taker-fee burn share stays at its default 0",
-			"balancer pools are created without smooth weight change parameters (weights constant); stableswap scaling factors are not adjusted after creation",
+			"about one balancer pool in seven is a liquidity-bootstrapping pool: its weights move smoothly to target weights with another total over 2-60 s starting 0-9 s after creation, so blocks land before, inside and after the change; the reference reads the asset weights in force at each block from the pool and normalises by their own sum (the pool's cached total weight is deliberately not read); stableswap pools name their creator as scaling-factor controller, who re-scales them during the run (MsgStableSwapAdjustScalingFactors; one attempt in ten comes from somebody else and is followed, not judged)",
 			"C04 tolerance: osmomath documents fractional exponentiation as accurate to powPrecision=1e-8 'for small bases'. For a call result q = scale*g(Pow(y,e)) the reference allows |q_impl - q_exact| <= scale*tolP (+1 unit in the direction the code is documented to round), with tolP = 1.01*1e-8*amp*y^floor(e) + 18-digit rounding terms, amp = max(1,|1-y|/(1-|1-y|)) for y<1 (all series terms have one sign there, so the tail after the first term below 1e-8 is bounded by that geometric factor) and amp = 1 for y>=1 (alternating series). Inside |1-y|<=1/2 this is exactly the documented 1e-8.",
 			"C04 'weighted product per share never falls by more than that precision' is checked as: V/S after the call, with the single Pow-derived quantity moved by the tolerance above in the pool's favour, is >= V/S before, in 768-bit logarithms; all-asset joins/exits and every stableswap swap are checked exactly in rationals with no tolerance",
 			"closed-cycle probes allow the actor a gain of reserve*(1-exp(-eps/w)) in the cycle's denomination, eps being the sum of the per-call V/S tolerances of the cycle (0 for stableswap and for join-all/exit-all)",
